@@ -372,6 +372,8 @@ impl Tags {
 // public-API view
 
 pub struct PublicView {
+    /// the document's offset kind when the caller knows it: a text's `len` is then compared with its content (C17)
+    pub kind: Option<yrs::OffsetKind>,
     /// container key -> visible ids as read through the public API
     pub vis: BTreeMap<String, Vec<Id>>,
     /// accessor disagreements found while reading (C17)
@@ -481,18 +483,33 @@ fn walk_xml_attrs<T: ReadTxn>(txn: &T, mut attrs: Vec<(String, Out)>, prefix: &s
 pub fn walk_text<T: ReadTxn>(txn: &T, t: &TextRef, prefix: &str, tags: &Tags, pv: &mut PublicView, depth: usize) {
     let mut ids = Vec::new();
     let mut concat = String::new();
+    let mut others = 0u32;
     for d in t.diff(txn, YChange::identity) {
         match &d.insert {
             Out::Any(Any::String(s)) => {
                 concat.push_str(s);
                 ids.extend(tags.of_str(s));
             }
-            other => ids.push(walk_value(txn, other, tags, pv, depth + 1)),
+            other => {
+                others += 1;
+                ids.push(walk_value(txn, other, tags, pv, depth + 1))
+            }
         }
     }
     let s = t.get_string(txn);
     if s != concat {
         pv.disagreements.push(format!("text {}: get_string {:?} != diff concat {:?}", prefix, s, concat));
+    }
+    // a text's length = length of its string in the document's offset kind + one per embedded element
+    if let Some(kind) = pv.kind {
+        let expect = others
+            + match kind {
+                yrs::OffsetKind::Bytes => s.len() as u32,
+                yrs::OffsetKind::Utf16 => s.encode_utf16().count() as u32,
+            };
+        if t.len(txn) != expect {
+            pv.disagreements.push(format!("text {}: len {} != {} (string {:?} + {} embedded)", prefix, t.len(txn), expect, s, others));
+        }
     }
     pv.vis.insert(format!("{}|", prefix), ids);
 }
@@ -540,7 +557,11 @@ pub enum RootKind {
 }
 
 pub fn public<T: ReadTxn>(txn: &T, roots: &[(String, RootKind)], tags: &Tags) -> PublicView {
-    let mut pv = PublicView { vis: BTreeMap::new(), disagreements: Vec::new() };
+    public_in(txn, roots, tags, None)
+}
+
+pub fn public_in<T: ReadTxn>(txn: &T, roots: &[(String, RootKind)], tags: &Tags, kind: Option<yrs::OffsetKind>) -> PublicView {
+    let mut pv = PublicView { kind, vis: BTreeMap::new(), disagreements: Vec::new() };
     for (name, kind) in roots {
         match kind {
             RootKind::Text => {
@@ -626,8 +647,13 @@ pub fn pending<T: ReadTxn>(txn: &T) -> Pending {
 
 /// Full observation record of one replica.
 pub fn observe<T: ReadTxn>(txn: &T, roots: &[(String, RootKind)], tags: &Tags) -> Value {
+    observe_in(txn, roots, tags, None)
+}
+
+/// `kind`: the offset kind of the observed document (lengths of texts are then part of the C17 comparison)
+pub fn observe_in<T: ReadTxn>(txn: &T, roots: &[(String, RootKind)], tags: &Tags, kind: Option<yrs::OffsetKind>) -> Value {
     let s = structural(txn);
-    let p = public(txn, roots, tags);
+    let p = public_in(txn, roots, tags, kind);
     let q = pending(txn);
     let mut v = s.to_json();
     let o = v.as_object_mut().unwrap();
